@@ -150,7 +150,44 @@ class Judge:
         self.nonconf[what] = self.nonconf.get(what, 0) + 1
 
 
-def replay(beh, index, judge):
+def probe_solve(W, rec, judge, hist):
+    """after the last step of a behaviour: solve one variable and compare with a fresh start; what
+    the spec expects follows from the projection: the entry check fires (flags) or the cache is fresh"""
+    P, np = W.P, W.np
+    import copy as _copy
+    for key in ("vars", "bcs"):
+        if isinstance(rec[key], list):
+            rec[key] = {}
+    cands = [a for a in rec["args"] if isinstance(a, str) and a in rec["vars"] and a in W.vars]
+    cands = cands or sorted(v for v in rec["vars"] if v in W.vars)
+    if not cands:
+        return
+    vn = cands[-1]
+    pv = rec["vars"][vn]
+    if not pv["hasCache"]:
+        return
+    dirty = pv["valDirty"] or bool(rec["bcs"].get(pv["bc"], {}).get("dirty"))
+    expect_fresh = dirty or pv["cacheFresh"]
+    v = W.vars[vn]
+    shared = sum(1 for w in W.vars.values() if w.BCs is v.BCs) > 1
+    with warnings.catch_warnings(), np.errstate(all="ignore"), contextlib.redirect_stdout(io.StringIO()):
+        warnings.simplefilter("ignore")
+        try:
+            fresh = P.CellVariable(W.m, np.array(v.value, copy=True), _copy.deepcopy(v.BCs))
+            terms = W.terms()
+            P.solvePDE(fresh, terms)
+            P.solvePDE(v, terms)
+        except Exception as ex:      # noqa: BLE001
+            judge.bad("C09_ActionRaises", {"grid_class": W.cls, "action": "probe SolvePDE", "error": type(ex).__name__},
+                      {"history": hist, "error": repr(ex)})
+            return
+    judge.solves += 1
+    if not np.array_equal(np.asarray(v._value), np.asarray(fresh._value)):
+        judge.bad("C09_FreshSolve", {"grid_class": W.cls, "shared_bc": shared, "spec_expects_stale": not expect_fresh},
+                  {"grid_class": W.cls, "history": hist + [["SolvePDE(probe)", [vn]]]})
+
+
+def replay(beh, index, judge, probe=False):
     W = World(index)
     P, np = W.P, W.np
     hist = []
@@ -185,6 +222,8 @@ def replay(beh, index, judge):
                     judge.bad("C15_Pure" if name == "Build" else "C14_OperandsKept",
                               dict(ctx, action=name, what="unrelated variable modified"), wit)
         compare_projection(W, rec, judge, ctx, wit, name)
+    if probe and beh:
+        probe_solve(W, beh[-1], judge, hist)
 
 
 def compare_projection(W, rec, judge, ctx, wit, name):
